@@ -20,7 +20,22 @@ func (tr *FnTr) val(v ssa.Value) Val {
 	case *ssa.Const:
 		return tr.constVal(x)
 	case *ssa.Global:
-		return Val{T: x.Type(), L: []*Term{Int(tr.eng.globalID(x)), Int(0)}}
+		_, known := tr.eng.globals[x]
+		id := tr.eng.globalID(x)
+		if !known {
+			// references typed earlier cannot point into this variable unless its type allows
+			gt := x.Type().Underlying().(*types.Pointer).Elem()
+			var cs []*Term
+			for _, to := range tr.top.typedObjs {
+				if !typeContains(gt, to.elem, 0) {
+					cs = append(cs, Ne(to.obj, Int(id)))
+				}
+			}
+			if len(cs) > 0 {
+				tr.vc.Assume(And(cs...))
+			}
+		}
+		return Val{T: x.Type(), L: []*Term{Int(id), Int(0)}}
 	case *ssa.Function:
 		return Val{T: x.Type(), L: []*Term{Int(tr.eng.funcID(x))}}
 	case *ssa.Builtin:
